@@ -4,7 +4,9 @@ package c17
 import (
 	"bytes"
 	"encoding/json"
+	"encoding/xml"
 	"fmt"
+	"html/template"
 	"reflect"
 	"strconv"
 	"strings"
@@ -257,7 +259,13 @@ type outcome struct {
 }
 
 func same(name string, c Case, w *vkit.W, outs [4]outcome) (anyErr bool) {
-	labels := [4]string{"string", "[]byte", "named string", "named []byte"}
+	return sameL(name, [4]string{"string", "[]byte", "named string", "named []byte"}, c, w, outs)
+}
+
+// stdLabels names the standard-library instantiations of the input type parameter used beside the harness's own named types.
+var stdLabels = [4]string{"string", "json.RawMessage", "template.HTML", "xml.CharData"}
+
+func sameL(name string, labels [4]string, c Case, w *vkit.W, outs [4]outcome) (anyErr bool) {
 	for i := 1; i < 4; i++ {
 		a, b := outs[0], outs[i]
 		if !reflect.DeepEqual(a.val, b.val) {
@@ -289,17 +297,24 @@ func judgeStateless(c Case, w *vkit.W) (anyErr bool) {
 	case "date":
 		r := date.Rule(c.Rule)
 		e(same("DefaultParser", c, w, [4]outcome{o(date.DefaultParser(a, r)), o(date.DefaultParser(ab, r)), o(date.DefaultParser(S(a), r)), o(date.DefaultParser(B(ab), r))}))
+		e(sameL("DefaultParser", stdLabels, c, w, [4]outcome{o(date.DefaultParser(a, r)), o(date.DefaultParser(json.RawMessage(ab), r)), o(date.DefaultParser(template.HTML(a), r)), o(date.DefaultParser(xml.CharData(ab), r))}))
 	case "roman":
 		r := roman.Rule(c.Rule)
 		e(same("DefaultParser", c, w, [4]outcome{o(roman.DefaultParser(a, r)), o(roman.DefaultParser(ab, r)), o(roman.DefaultParser(S(a), r)), o(roman.DefaultParser(B(ab), r))}))
+		e(sameL("DefaultParser", stdLabels, c, w, [4]outcome{o(roman.DefaultParser(a, r)), o(roman.DefaultParser(json.RawMessage(ab), r)), o(roman.DefaultParser(template.HTML(a), r)), o(roman.DefaultParser(xml.CharData(ab), r))}))
 		e(same("Valid", c, w, [4]outcome{o(nil, roman.Valid(a, r)), o(nil, roman.Valid(ab, r)), o(nil, roman.Valid(S(a), r)), o(nil, roman.Valid(B(ab), r))}))
+		e(sameL("Valid", stdLabels, c, w, [4]outcome{o(nil, roman.Valid(a, r)), o(nil, roman.Valid(json.RawMessage(ab), r)), o(nil, roman.Valid(template.HTML(a), r)), o(nil, roman.Valid(xml.CharData(ab), r))}))
 	case "sem":
 		r := sem.Rule(c.Rule)
 		e(same("DefaultParser", c, w, [4]outcome{o(sem.DefaultParser(a, r)), o(sem.DefaultParser(ab, r)), o(sem.DefaultParser(S(a), r)), o(sem.DefaultParser(B(ab), r))}))
+		e(sameL("DefaultParser", stdLabels, c, w, [4]outcome{o(sem.DefaultParser(a, r)), o(sem.DefaultParser(json.RawMessage(ab), r)), o(sem.DefaultParser(template.HTML(a), r)), o(sem.DefaultParser(xml.CharData(ab), r))}))
 		e(same("Parse", c, w, [4]outcome{o(sem.Parse(a)), o(sem.Parse(ab)), o(sem.Parse(S(a))), o(sem.Parse(B(ab)))}))
+		e(sameL("Parse", stdLabels, c, w, [4]outcome{o(sem.Parse(a)), o(sem.Parse(json.RawMessage(ab))), o(sem.Parse(template.HTML(a))), o(sem.Parse(xml.CharData(ab)))}))
 		e(same("ParseVersion", c, w, [4]outcome{o(sem.ParseVersion(a)), o(sem.ParseVersion(ab)), o(sem.ParseVersion(S(a))), o(sem.ParseVersion(B(ab)))}))
 		e(same("ParseTag", c, w, [4]outcome{o(sem.ParseTag(a)), o(sem.ParseTag(ab)), o(sem.ParseTag(S(a))), o(sem.ParseTag(B(ab)))}))
+		e(sameL("ParseTag", stdLabels, c, w, [4]outcome{o(sem.ParseTag(a)), o(sem.ParseTag(json.RawMessage(ab))), o(sem.ParseTag(template.HTML(a))), o(sem.ParseTag(xml.CharData(ab)))}))
 		e(same("Compare", c, w, [4]outcome{o(sem.Compare(a, b)), o(sem.Compare(ab, bb)), o(sem.Compare(S(a), bb)), o(sem.Compare(B(ab), S(b)))}))
+		e(sameL("Compare", stdLabels, c, w, [4]outcome{o(sem.Compare(a, b)), o(sem.Compare(json.RawMessage(ab), xml.CharData(bb))), o(sem.Compare(template.HTML(a), json.RawMessage(bb))), o(sem.Compare(xml.CharData(ab), template.HTML(b)))}))
 		e(same("CompareTag", c, w, [4]outcome{o(sem.CompareTag(a, b)), o(sem.CompareTag(ab, bb)), o(sem.CompareTag(a, B(bb))), o(sem.CompareTag(B(ab), b))}))
 		e(same("Latest", c, w, [4]outcome{o(sem.Latest(a, b)), o(sem.Latest(ab, bb)), o(sem.Latest(S(a), S(b))), o(sem.Latest(B(ab), B(bb)))}))
 		e(same("LatestVersion", c, w, [4]outcome{o(sem.LatestVersion(a, b)), o(sem.LatestVersion(ab, bb)), o(sem.LatestVersion(S(a), b)), o(sem.LatestVersion(a, B(bb)))}))
@@ -308,9 +323,11 @@ func judgeStateless(c Case, w *vkit.W) (anyErr bool) {
 	case "size":
 		r := size.Rule(c.Rule)
 		e(same("DefaultParser", c, w, [4]outcome{o(size.DefaultParser(a, r)), o(size.DefaultParser(ab, r)), o(size.DefaultParser(S(a), r)), o(size.DefaultParser(B(ab), r))}))
+		e(sameL("DefaultParser", stdLabels, c, w, [4]outcome{o(size.DefaultParser(a, r)), o(size.DefaultParser(json.RawMessage(ab), r)), o(size.DefaultParser(template.HTML(a), r)), o(size.DefaultParser(xml.CharData(ab), r))}))
 	case "uu":
 		r := uu.Rule(c.Rule)
 		e(same("DefaultParser", c, w, [4]outcome{o(uu.DefaultParser(a, r)), o(uu.DefaultParser(ab, r)), o(uu.DefaultParser(S(a), r)), o(uu.DefaultParser(B(ab), r))}))
+		e(sameL("DefaultParser", stdLabels, c, w, [4]outcome{o(uu.DefaultParser(a, r)), o(uu.DefaultParser(json.RawMessage(ab), r)), o(uu.DefaultParser(template.HTML(a), r)), o(uu.DefaultParser(xml.CharData(ab), r))}))
 	}
 	if !bytes.Equal(ab, snapA) || !bytes.Equal(bb, snapB) {
 		w.Fail(c, "input-modified", fmt.Sprintf("%s: a parser changed the bytes it was given: %q -> %q / %q -> %q", c.Type, snapA, ab, snapB, bb))
